@@ -45,6 +45,16 @@ def snapshot():
         for k, v in vars(m).items():
             if k.startswith('__') or isinstance(v, pytypes.ModuleType): continue
             visit('%s.%s' % (m.__name__, k), v)
+    # state of the interpreter and the process that a library call could change behind the caller's back
+    import sys, os, locale, warnings, decimal
+    out.append(('sys.getrecursionlimit()', repr(sys.getrecursionlimit())))
+    out.append(('os.getcwd()', os.getcwd()))
+    out.append(('os.environ', repr(sorted(os.environ.items()))))
+    out.append(('locale', repr(locale.setlocale(locale.LC_ALL))))
+    out.append(('len(sys.path)', repr(len(sys.path))))
+    out.append(('len(warnings.filters)', repr(len(warnings.filters))))
+    out.append(('decimal context', repr(decimal.getcontext())))
+    out.append(('sys.stdout/stderr', repr((sys.stdout is sys.__stdout__, sys.stderr is sys.__stderr__))))
     return out
 
 BAD_TEXTS = ['ATTACHMENT\n  foo\x01\n', 'SCHEDULE h\n  ANNEXURE\n    x\x02\n  APPENDIX\n    y\n', 'a\n  SEC 1\x0b\n', 'P{1 x} foo\n',
@@ -69,6 +79,11 @@ def make_history(rng, nobj):
         elif r < 0.87: h.append((o, 'rewrite', rng.randrange(1 << 30)))
         elif r < 0.92: h.append((o, 'rewrite_other_ns', rng.randrange(1 << 30)))
         else: h.append((o, 'unparse', root, gen.gen_doc(rng, root)))
+    if rng.random() < 0.15:
+        # a text nested deeper than the interpreter's stock recursion limit allows (the call raises RecursionError, or lxml refuses the depth)
+        k = rng.choice([340, 500, 700])
+        deep = rng.choice(['{{+ ' * k + 'x' + '}}' * k + '\n', '\n'.join(' ' * i + 'SEC %d' % i for i in range(k)) + '\n', '**' * k + 'x\n'])
+        h.insert(rng.randint(0, len(h)), (rng.randrange(nobj), rng.choice(['parse_to_xml', 'parse+tree_to_xml']), rng.choice(['act', 'statement', 'doc']), deep))
     return h
 
 def run_history(args):
@@ -78,6 +93,8 @@ def run_history(args):
     from cobalt import FrbrUri
     from lxml import etree
     objs = [AkomaNtosoParser(FrbrUri.parse(URI), '') for _ in range(nobj)]
+    import sys
+    sys.setrecursionlimit(1000)          # the interpreter's stock limit, as in a caller's fresh process (the stages raise it for their own runs)
     before = snapshot()
     raised = 0
     for call in history:
